@@ -255,6 +255,56 @@ def l2_client(ck, th, seed):
                                  % f['schedule_seed'],
                                  {'script': f['script'], 'schedule_seed': f['schedule_seed'],
                                   'trace': t, 'kind': 'l2-client-trace'})
+    # ---- spec -> code at L2: TLC schedules replayed on the real Client -----------------------
+    from . import core as _core
+    sc_consts = dict(MaxSend=2, Cap=16, SrvMayClose='TRUE', Timeouts='FALSE')
+    cfg = tlc.cfg_text(spec='SimSpec', constants=sc_consts, constraints=['EmitSchedule'])
+    r = tlc.run('EioClientFineSim', cfg, simulate='num=%d' % (600 if th else 150), depth=80,
+                workers=1, seed=seed + 3, timeout=600, constants=sc_consts)
+    if r.error:
+        raise MachineryError('EioClientFineSim simulation failed: %s\n%s' % (r.error, r.out[-1500:]))
+    ck.add_tlc(r, 'simulation of EioClientFineSim: complete behaviours with their schedules')
+    seen, i, txt = {}, 0, r.out
+    while True:
+        i = txt.find('<< "SCHEDULE"', i)
+        if i < 0:
+            break
+        j = _core._balanced(txt, i)
+        key, i = txt[i:j], j
+        if key not in seen:
+            seen[key] = tlc.parse_tla_value(key)
+    nrep = nsame = ntwo = 0
+    for key, v in seen.items():
+        sched, mev, mtx, mst = v[1], v[2], v[3], v[4]
+        nrep += 1
+        try:
+            t, left = l2.replay_client_schedule(2, sched)
+        except RuntimeError as e:
+            ck.violation('the real Client cannot follow a TLC schedule of EioClientFine: %s' % e,
+                         {'schedule': sched, 'kind': 'l2-client-schedule'})
+            continue
+        same = t['final']['ev'] == mev and t['final']['tx'] == mtx and t['final']['st'] == mst \
+            and not left
+        nsame += bool(same)
+        if not same and nrep - nsame <= 3:
+            ck.violation('under a TLC schedule the real Client ends with events %r frames %r state %s, '
+                         'EioClientFine with %r %r %s' % (t['final']['ev'], t['final']['tx'],
+                                                          t['final']['st'], mev, mtx, mst),
+                         {'schedule': sched, 'real': t, 'kind': 'l2-client-schedule'})
+        if same and len(mev) > 1:
+            ntwo += 1
+            if f27:
+                ck.known_finding('F27', f27[0]['what'])
+            else:
+                ck.violation('two disconnect events under a TLC schedule', {'schedule': sched})
+        ck.distinct(['l2sched', [(e['p'], e['silent']) for e in sched]])
+    if nrep < 20:
+        raise MachineryError('vacuity: only %d complete behaviours came out of the simulation' % nrep)
+    ck.add_conformance('spec -> code at L2: complete behaviours of EioClientFine generated by TLC, '
+                       'each replayed on the real threaded Client under exactly its schedule (hub in '
+                       'scripted mode: a task stops after every primitive); final events, frames '
+                       'and state must equal the model\'s', nrep, nsame,
+                       behaviours_with_two_disconnect_events=ntwo)
     ck.cov['f27_schedules'] = nf27
     ck.add_conformance('threaded Client on websocket with a scripted server end under pre-emptive '
                        'schedules: every primitive of the send queue and of the websocket (call of '
